@@ -31,7 +31,8 @@ contract(M + "Task.objective_function", params=dict(x="list[val]"),
          assumed_reason="the user's objective: deterministic, total on the search space, side-effect free (ValidTask)",
          requires=[("only-evaluated-inside-the-search-space", "Space(self, x)")],
          ensures=[("value", "implies(scalar_case(), result == F(self, x))"),
-                  ("count", "implies(not scalar_case(), len(result) == nobj(self))")],
+                  ("count", "implies(not scalar_case(), len(result) == nobj(self))"),
+                  ("values", "implies(not scalar_case(), all(result[k] == Fk(self, x, k) for k in range(nobj(self))))")],
          allocates=True, properties=[])
 
 SOL_CASES = [{"solution": "list[val]"}, {"solution": "nd[val]"}]
@@ -55,6 +56,7 @@ contract(M + "Task.solve", params=dict(x="list[val]"), returns={"case": "__obj__
          requires=["Space(self, x)"],
          ensures=[("objective-at-x", "implies(scalar_case(), result == F(self, x))"),
                   ("objective-count", "implies(not scalar_case(), len(result) == nobj(self))"),
+                  ("objective-values", "implies(not scalar_case(), all(result[k] == Fk(self, x, k) for k in range(nobj(self))))"),
                   ("pure", "heap_unchanged()")],
          properties=["C02", "C05"])
 
